@@ -104,9 +104,11 @@ def check_config(cfg, drv, out):
     vals = [r[1] if r[0] == 'ok' else None for r in res.results]
     if kind != 'ok':
         # a transpose (or the constructor) raised: find which pair by replaying one pair at a time
+        found_single = False
         for p in cfg['pairs']:
             r1 = run_impl(dict(cfg, pairs=[p]))
             if r1.error_kind() != 'ok':
+                found_single = True
                 src, dst, ub = p
                 c = dict(case0, src=src, dst=dst, buf=ub)
                 out['fails'].append((classify(cfg, src, dst), 'transpose raised: ' + str(r1.first_error())[:200], c, None, None))
@@ -115,6 +117,10 @@ def check_config(cfg, drv, out):
                     out['diffs'].append(('refusal', c, 'model: ok', r1.error_kind()))
             else:
                 compare_pair(cfg, base, drv, p, [v['pairs'][0] for v in r1.values()], out, case0)
+        if not found_single:
+            # every transpose works on a fresh handler but the SEQUENCE on one handler raises: state is kept between calls
+            out['fails'].append(('C01:sequence-raises', 'a sequence of transposes on one handler raised (%s) although each of them works on a fresh handler'
+                                 % str(res.first_error())[:160], dict(case0, pairs=[list(p) for p in cfg['pairs']]), None, None))
         return
     # ---- static data
     if [v['buffer'] for v in vals] != mh['buffer']:
@@ -172,6 +178,9 @@ def gen_config(rng, quick, it):
     allpairs = [(a, b) for a in names for b in names if a != b] + [(rng.choice(names),) * 2]
     k = min(len(allpairs), 6 if quick else 12)
     pairs = [(a, b, rng.random() < 0.5) for a, b in rng.sample(allpairs, k)]
+    # the same ordered pair again later on the same handler (with the same and with the other buffer choice): nothing of a call may
+    # survive into the next one
+    pairs += [(a, b, ub if rng.random() < 0.5 else not ub) for a, b, ub in pairs[:3]]
     return {'nprocs': nprocs, 'ext': shape, 'layouts': lays, 'pairs': pairs, 'dtype': DTYPES[it % 3],
             'policy': rng.choice(['inorder', 'reverse', 'random']), 'seed': it}
 
@@ -201,7 +210,8 @@ def standard_configs():
     for shape, nprocs in [([4, 5, 7, 8], [1, 3]), ([4, 5, 7, 8], [2, 2]), ([6, 5, 7, 8], [3, 2]), ([5, 5, 6, 9], [3, 1]), ([4, 4, 4, 4], [2, 2])]:
         names = list(L4)
         out.append({'nprocs': nprocs, 'ext': shape, 'layouts': L4, 'dtype': 'float64',
-                    'pairs': [(a, b, ub) for a in names for b in names for ub in (False, True)]})
+                    'pairs': [(a, b, ub) for a in names for b in names for ub in (False, True)] +
+                             [(a, b, False) for a in names for b in names if a != b]})
     for shape, nprocs in [([5, 6, 7], [2, 3]), ([4, 4, 6], [1, 2]), ([6, 5, 4], [3, 1])]:
         names = list(L3)
         out.append({'nprocs': nprocs, 'ext': shape, 'layouts': L3, 'dtype': 'complex128',
